@@ -35,6 +35,10 @@ func main() {
 			}
 		}()
 		ctx := &engines.Ctx{R: r, Tier: *tier, Repo: *repo, Verif: *verif}
+		load.BaselineFuncs = *verif + "/baseline_funcs.txt"
+		if os.Getenv("BNGVET_NO_INLINE") != "" {
+			load.BaselineFuncs = ""
+		}
 		if !engines.NoGo[*prop] {
 			p, err := load.Load(*repo, true)
 			if err != nil {
@@ -42,6 +46,9 @@ func main() {
 				return r.Finish()
 			}
 			r.Count("packages_loaded", len(p.Pkgs))
+			for _, l := range p.InlineLog {
+				r.List("new_helpers_inlined", l)
+			}
 			ctx.P = p
 		}
 		eng(ctx)
